@@ -4,6 +4,7 @@
 // exact delayed copy in the real part of HilbertFilter.
 #include "dsp_util.h"
 #include "simrun.h"
+#include "histcalls.h"
 
 #include <memory>
 
@@ -85,6 +86,12 @@ Plan gen(uint64_t seed, const std::string& tier) {
             op.a = {double(flen), tw, double(n), double(r.seed32()), double(style), double(r.seed32()), double(fparam)};
         }
         pl.ops.push_back(op);
+    }
+    if (r.chance(0.25)) {
+        Op h;
+        h.kind = "hist";
+        h.a = {double(r.seed32()), double(r.range(2, 8))};
+        pl.ops.push_back(h);
     }
     return pl;
 }
@@ -290,6 +297,9 @@ Result exec(const Plan& pl) {
             run_tuner(op, res);
         } else if (op.kind == "hilbert" && op.a.size() >= 7) {
             run_hilbert(op, res);
+        } else if (op.kind == "hist" && op.a.size() >= 2) {
+            // hilbert(x) / hilbert(x, n) call histories: history independence only (their numerical definition is not decided here)
+            run_history_calls("C14", HF_HILBERT, uint32_t(op.iarg(0)), int(op.iarg(1)), res);
         } else {
             res.invalid = true;
         }
